@@ -347,8 +347,17 @@ def kind_of(x):
     if isinstance(x, int):
         return 'i'
     if hasattr(x, 'dtype'):
-        return 'f' if x.dtype.kind == 'f' else ('b' if x.dtype.kind == 'b' else 'i')
+        return 'f' if x.dtype.kind == 'f' else ('b' if x.dtype.kind == 'b' else ('u' if x.dtype.kind == 'u' else 'i'))
     return 'f'
+
+
+U64 = 2 ** 64
+
+
+def wrap_u64(t):
+    """value of an unsigned 64-bit result whose mathematical value is t (only the wrap below zero is modelled; inputs
+    are bounded so that nothing reaches 2^64 from below)"""
+    return z3.If(t < 0, t + z3.RealVal(U64), t)
 
 
 class SymBool(object):
@@ -409,7 +418,13 @@ class SymNum(object):
         return 0
 
     def _k(self, o):
-        return 'i' if (self.kind == 'i' and kind_of(o) in ('i', 'b')) else 'f'
+        ko = kind_of(o)
+        if self.kind == 'u' or ko == 'u':
+            # numpy 1.x scalars: uint64 with uint64 / bool stays uint64 (and wraps), with any other number -> float64
+            if {self.kind, ko} <= {'u', 'b'}:
+                return 'u'
+            return 'f'
+        return 'i' if (self.kind == 'i' and ko in ('i', 'b')) else 'f'
 
     def _np(self, o):
         return self.np or bool(getattr(o, 'np', False))
@@ -421,7 +436,11 @@ class SymNum(object):
             t = lift(o)
         except TypeError:
             return NotImplemented
-        return SymNum(f(self.e, t), self._k(o), self._np(o))
+        k = self._k(o)
+        r = f(self.e, t)
+        if k == 'u':
+            r = wrap_u64(r)
+        return SymNum(r, k, self._np(o))
 
     def __add__(self, o):
         return self._bin(o, lambda a, b: a + b)
@@ -466,6 +485,8 @@ class SymNum(object):
         return SymNum(lift(o) / self.e, 'f', self._np(o))
 
     def __neg__(self):
+        if self.kind == 'u':
+            return SymNum(wrap_u64(-self.e), 'u', self.np)
         return SymNum(-self.e, self.kind, self.np)
 
     def __pos__(self):
@@ -488,7 +509,7 @@ class SymNum(object):
         return SymBool(z3.IsInt(self.e))
 
     def __index__(self):
-        if self.kind != 'i':
+        if self.kind not in ('i', 'u'):
             raise TypeError("'float' object cannot be interpreted as an integer")
         return CTX.choose_int(self.e, -8, 8)
 
@@ -1076,6 +1097,17 @@ class _ShadowMeta(type):
 
     def __call__(cls, *a, **k):
         return cls._convert(*a, **k)
+
+    # the stand-in IS the builtin type as far as comparisons go (`data_type in (int, numpy.uint)` in the analysed code
+    # compares a value captured at import time - the builtin - with the module's shadowed name)
+    def __eq__(cls, o):
+        return o is cls or o is cls.__mro__[1]
+
+    def __ne__(cls, o):
+        return not (o is cls or o is cls.__mro__[1])
+
+    def __hash__(cls):
+        return hash(cls.__mro__[1])
 
 
 class IntShadow(int, metaclass=_ShadowMeta):
